@@ -1003,7 +1003,17 @@ func GenInput(t *rapid.T, g *Grammar) []VTok {
 	}
 	nm := rapid.SampledFrom([]int{0, 0, 0, 1, 1, 2}).Draw(t, "nmut")
 	for i := 0; i < nm; i++ {
-		switch rapid.IntRange(0, 4).Draw(t, "mut") {
+		switch rapid.IntRange(0, 5).Draw(t, "mut") {
+		case 5:
+			// the same word in the other case: another word unless its token type is matched case-insensitively
+			if len(toks) > 0 {
+				j := rapid.IntRange(0, len(toks)-1).Draw(t, "flipat")
+				if v := toks[j].Value; v != strings.ToUpper(v) {
+					toks[j].Value = strings.ToUpper(v)
+				} else {
+					toks[j].Value = strings.ToLower(v)
+				}
+			}
 		case 0:
 			if len(toks) > 0 {
 				j := rapid.IntRange(0, len(toks)-1).Draw(t, "del")
